@@ -13,6 +13,7 @@ import (
 	"math/rand"
 	"regexp"
 	"runtime"
+	"sort"
 	"strings"
 	"sync"
 	"sync/atomic"
@@ -48,14 +49,23 @@ type program struct {
 var base = time.Unix(1_000_000, 0)
 
 type recorder struct {
-	mu sync.Mutex
-	b  *tv.Batch
+	mu  sync.Mutex
+	b   *tv.Batch
+	off bool // the run is over: goroutines that finish during the tear-down record nothing
 }
 
 func (r *recorder) ev(name string, m tv.M) {
 	r.mu.Lock()
 	defer r.mu.Unlock()
-	r.b.Ev(name, m)
+	if !r.off {
+		r.b.Ev(name, m)
+	}
+}
+
+func (r *recorder) end() {
+	r.mu.Lock()
+	r.off = true
+	r.mu.Unlock()
 }
 
 type result struct {
@@ -180,7 +190,8 @@ func classifyDeadlock(baseline map[string]bool) string {
 		if baseline[g.id] || !strings.Contains(g.text, limiterFrame) {
 			continue
 		}
-		onLock := g.state == "sync.RWMutex.RLock" || g.state == "sync.RWMutex.Lock"
+		// a writer queues on the RWMutex's inner mutex while another writer (Close) holds it
+		onLock := strings.Contains(g.text, "sync.(*RWMutex).") && (g.state == "sync.RWMutex.RLock" || g.state == "sync.RWMutex.Lock" || g.state == "sync.Mutex.Lock")
 		switch {
 		case strings.Contains(g.text, "(*coalescing).Close"):
 			if g.state == "sync.WaitGroup.Wait" {
@@ -426,6 +437,7 @@ func runSchedule(b *tv.Batch, prog program, seed int64) result {
 		rec.ev("stuck", tv.M{"n": res.stuck, "run": res.runStuck})
 	}
 	// tear down
+	rec.end()
 	ctl.Shutdown()
 	cancel()
 	if res.stuck == 0 && err == nil {
@@ -582,8 +594,8 @@ func TestCheck(t *testing.T) {
 	}()
 	rng := rand.New(rand.NewSource(ev.Seed()))
 
-	mcDone := make(chan struct{})
-	go func() { defer close(mcDone); modelCheck(e) }()
+	// the model checks run first and alone: TLC's load would slow the quiescence detection of the driver
+	modelCheck(e)
 
 	b := &tv.Batch{}
 	var results []result
@@ -614,10 +626,10 @@ func TestCheck(t *testing.T) {
 		{I: 1, M: 2, Consumer: "prompt", Clients: [][]opSpec{{A(1), idle(A(1)), idle(ADV(2))}, {after(A(1), 2)}, {after(ADV(1), 2)}}},
 		{I: 2, M: 2, Consumer: "prompt", Clients: [][]opSpec{{A(1), idle(ADV(2)), A(1)}, {after(A(1), 1)}, {after(ADV(2), 1)}}},
 	}
-	nStaged := ev.Pick(12, 200)
-	nRandProg := ev.Pick(110, 4000)
-	nSchedPer := ev.Pick(3, 6)
-	nSeq := ev.Pick(60, 2000)
+	nStaged := ev.Pick(6, 60)
+	nRandProg := ev.Pick(75, 1000)
+	nSchedPer := ev.Pick(3, 5)
+	nSeq := ev.Pick(40, 600)
 	inconcl, nSeqRun := 0, 0
 	run := func(p program, seed int64) {
 		if p.Prefix == nil {
@@ -628,6 +640,9 @@ func TestCheck(t *testing.T) {
 		progs = append(progs, p)
 		if r.err != nil {
 			inconcl++
+			if inconcl <= 3 {
+				fmt.Printf("schedule not driven to the end: %v (program %+v, %d choices)\n", r.err, p, len(r.schedule))
+			}
 		}
 		if len(r.schedule) > 6 {
 			e.Nontrivial(fmt.Sprint(p, r.schedule))
@@ -665,7 +680,6 @@ func TestCheck(t *testing.T) {
 	}
 	rej, res := tv.Validate(tlc.Opts{Dir: "Coalescing", Module: "TraceCoal", Config: "TraceCoal.cfg", Workers: 16, Timeout: ev.Pick(6*time.Minute, 40*time.Minute), HeapMB: 12000}, jb)
 	fmt.Printf("TLC contract validation: ok=%v traces=%d rejected=%d distinct=%d wall=%s %s\n", res.OK, jb.Len(), len(rej), res.Distinct, res.Wall.Round(time.Millisecond), res.What)
-	<-mcDone
 	if !res.OK {
 		e.Inconclusive("trace validation did not run: " + res.What + res.Tail(1500))
 		return
@@ -681,6 +695,7 @@ func TestCheck(t *testing.T) {
 		i := idx[k]
 		e.Sample(tv.M{"program": progs[i], "schedule": results[i].schedule, "trace": jb.TraceStrings(k)})
 	}
+	sort.Slice(rej, func(a, b int) bool { return rej[a].Trace < rej[b].Trace }) // the staged minimal reproducers come first
 	for _, r := range rej {
 		i := idx[r.Trace]
 		key := keyOf(r.Why, results[i])
@@ -700,21 +715,27 @@ func modelCheck(e *ev.Evidence) {
 		want    string // "" = must pass; otherwise the violated invariant/property expected (known-bad variant)
 		workers int
 		to      time.Duration
+		args    []string
 	}
 	cfgs := []cfg{
-		{"MC_small.cfg", "", 6, 6 * time.Minute},
-		{"MC_small_close.cfg", "", 4, 6 * time.Minute},
-		{"MC_live.cfg", "", 4, 10 * time.Minute},
-		{"MC_defect.cfg", "NoWedge", 2, 3 * time.Minute},
-		{"MC_defect_live.cfg", "Temporal", 2, 3 * time.Minute},
-		{"MC_defect_capeq.cfg", "MonitorOK", 2, 3 * time.Minute},
-		{"MC_defect_skipfire.cfg", "MonitorOK", 2, 3 * time.Minute},
-		{"MC_defect_close2.cfg", "MonitorOK", 2, 3 * time.Minute},
+		{name: "MC_small.cfg", workers: 6, to: 6 * time.Minute},
+		{name: "MC_small_close.cfg", workers: 5, to: 6 * time.Minute},
+		{name: "MC_live.cfg", workers: 5, to: 10 * time.Minute},
+		{name: "MC_defect.cfg", want: "NoWedge", workers: 2, to: 3 * time.Minute},
+		{name: "MC_defect_live.cfg", want: "Temporal", workers: 2, to: 3 * time.Minute},
+		{name: "MC_defect_capeq.cfg", want: "MonitorOK", workers: 3, to: 3 * time.Minute},
+		{name: "MC_defect_skipfire.cfg", want: "MonitorOK", workers: 3, to: 3 * time.Minute},
+		{name: "MC_defect_close2.cfg", want: "MonitorOK", workers: 2, to: 3 * time.Minute},
 	}
 	if ev.Thorough() {
-		cfgs[0] = cfg{"MC_big.cfg", "", 12, 40 * time.Minute}
-		cfgs[1] = cfg{"MC_big_close.cfg", "", 8, 40 * time.Minute}
-		cfgs = append(cfgs, cfg{"MC_inv.cfg", "", 8, 40 * time.Minute})
+		cfgs[0] = cfg{name: "MC_big.cfg", workers: 8, to: 40 * time.Minute}
+		cfgs[1] = cfg{name: "MC_big_close.cfg", workers: 5, to: 40 * time.Minute}
+		cfgs[2] = cfg{name: "MC_live_big.cfg", workers: 3, to: 40 * time.Minute}
+		cfgs = append(cfgs,
+			cfg{name: "MC_inv.cfg", workers: 6, to: 40 * time.Minute},
+			cfg{name: "MC_defect_live_lost.cfg", want: "Temporal", workers: 3, to: 5 * time.Minute},
+			// random deep behaviours of the monitored model with the full constants (all 12 configurations, 4 Adds, 2 Closes, cancel)
+			cfg{name: "MC_sim.cfg", workers: 4, to: 10 * time.Minute, args: []string{"-simulate", "num=600", "-depth", "150"}})
 	}
 	type out struct {
 		c cfg
@@ -729,7 +750,7 @@ func modelCheck(e *ev.Evidence) {
 			defer wg.Done()
 			sem <- struct{}{}
 			defer func() { <-sem }()
-			outs[i] = out{c, tlc.Run(tlc.Opts{Dir: "Coalescing", Module: "MCCoalescing", Config: c.name, Workers: c.workers, Timeout: c.to, HeapMB: 8000, Args: []string{"-noGenerateSpecTE"}})}
+			outs[i] = out{c, tlc.Run(tlc.Opts{Dir: "Coalescing", Module: "MCCoalescing", Config: c.name, Workers: c.workers, Timeout: c.to, HeapMB: 8000, Args: append([]string{"-noGenerateSpecTE"}, c.args...)})}
 		}(i, c)
 	}
 	wg.Wait()
@@ -750,6 +771,9 @@ func modelCheck(e *ev.Evidence) {
 			}
 		} else {
 			hit := r.Violation && strings.Contains(r.What, o.c.want)
+			if o.c.want == "Temporal" && strings.Contains(r.Output, "Error: Temporal propert") {
+				hit = true
+			}
 			defects[o.c.name] = hit
 			if !hit {
 				e.Inconclusive("known-bad variant " + o.c.name + " was not caught by the model check (expected " + o.c.want + "): " + r.What + "\n" + r.Tail(1500))
@@ -802,7 +826,7 @@ func selfTest(e *ev.Evidence) {
 	mk(2, true, false, 0)  // 0 fine
 	mk(1, true, false, 0)  // 1 the window-end signal one ms early
 	mk(2, false, false, 0) // 2 the second Add lost
-	mk(2, true, true, 0)   // 3 two signals for one burst
+	mk(2, true, true, 0)   // 3 more signals than Adds
 	mk(2, true, false, 1)  // 4 Close returned with a helper alive
 	// 5: deadlock
 	b.Start(tv.M{"i": 1, "m": 4, "cap": 0})
@@ -833,14 +857,28 @@ func selfTest(e *ev.Evidence) {
 	b.Ev("signal", nil)
 	b.Ev("signal", nil)
 	b.Ev("quiescent", tv.M{"recv": true})
+	// 8: sequential burst of two Adds inside the window, then two signals at its end: a burst yields a single signal
+	b.Start(tv.M{"i": 1, "m": 4, "cap": 0})
+	for n := 1; n <= 3; n++ {
+		b.Ev("add_call", tv.M{"n": n})
+		b.Ev("add_ret", tv.M{"n": n})
+		if n == 1 {
+			b.Ev("signal", nil)
+		}
+		b.Ev("quiescent", tv.M{"recv": true})
+	}
+	b.Ev("adv", tv.M{"now": 4})
+	b.Ev("signal", nil)
+	b.Ev("signal", nil)
+	b.Ev("quiescent", tv.M{"recv": true})
 	rej, res := tv.Validate(tlc.Opts{Dir: "Coalescing", Module: "TraceCoal", Config: "TraceCoal.cfg", Workers: 2, Timeout: 2 * time.Minute}, b)
 	got := map[int]string{}
 	for _, r := range rej {
 		got[r.Trace] = r.Why
 	}
 	has := func(i int, pfx string) bool { return strings.HasPrefix(got[i], pfx) }
-	ok := res.OK && got[0] == "" && has(1, "early") && has(2, "lost") && has(3, "duplicate") && has(4, "helpers") && has(5, "deadlock") && has(6, "lost") && got[7] == ""
-	e.Set("binding_selftest", tv.M{"valid_accepted_early_lost_duplicate_helpers_deadlock_rejected": ok})
+	ok := res.OK && got[0] == "" && has(1, "early") && has(2, "lost") && has(3, "excess") && has(4, "helpers") && has(5, "deadlock") && has(6, "lost") && got[7] == "" && has(8, "duplicate")
+	e.Set("binding_selftest", tv.M{"valid_accepted_early_lost_excess_duplicate_helpers_deadlock_rejected": ok})
 	if !ok {
 		e.Inconclusive(fmt.Sprintf("binding self-test failed: %v %s %s", got, res.What, res.Tail(600)))
 	}
